@@ -170,7 +170,7 @@ def readAt (src : Src) (st : DState) (u : Str) (t : RevTree) (r : Rev) : Res (JO
 /-- `create_object` -/
 def createObject (H : Bytes → Str) (st : DState) (u : Str) (o : JObj) : Res (DState × Option Str) :=
   match digestObject H o with
-  | .error _ => .panic "cannot_create_revision"
+  | .error e => .err e      -- (an `_id` field inside the object, a `#` field of a wrong type: refused)
   | .ok d =>
     let rev := Rev.mk1 d
     let st1 := st.writeObject rev o
@@ -215,7 +215,7 @@ def updateObject (H : Bytes → Str) (src : Src) (st : DState) (u : Str) (o : JO
       | .ok (some obj, c) =>
         let st := { st with acache := c }
         match digestObject H obj with
-        | .error _ => .panic "digest_object"
+        | .error e => .err e
         | .ok d =>
           if isArrayDescriptor u || d ≠ w.digest then
             let rev := Rev.upd H d w
